@@ -96,7 +96,19 @@ class SimFS(FS):
         raise NotImplementedError
 
     def remove(self, path):
-        raise NotImplementedError
+        try:
+            self.disk.remove(self._p(path))
+        except OSError as e:
+            raise _fs_error(e, path)
+
+    def move(self, src_path, dst_path, overwrite=False, preserve_time=False):
+        p, q = self._p(src_path), self._p(dst_path)
+        if not overwrite and q in self.disk.files:
+            raise fs.errors.DestinationExists(dst_path)
+        try:
+            self.disk.rename(p, q)
+        except OSError as e:
+            raise _fs_error(e, src_path)
 
     def removedir(self, path):
         raise NotImplementedError
@@ -144,6 +156,16 @@ class _ShimOS:
 
     def readlink(self, path):
         raise OSError(errno.EINVAL, "Invalid argument", path)
+
+    def remove(self, path):
+        self._disk.remove(path)
+
+    unlink = remove
+
+    def rename(self, src, dst):
+        self._disk.rename(src, dst)
+
+    replace = rename
 
 
 class _ShimIO:
